@@ -448,7 +448,7 @@ func opaqueJoin(s *cases.Set, r *cq.RNG, i int) {
 			copy(buf2, dp.Bytes)
 			snap2 := append([]byte{}, buf2...)
 			g := ja
-			g.MACPayload = &lorawan.DataPayload{Bytes: buf2[:len(dp.Bytes):len(dp.Bytes)+spare]}
+			g.MACPayload = &lorawan.DataPayload{Bytes: buf2[: len(dp.Bytes) : len(dp.Bytes)+spare]}
 			decCase(s, g, k, "opaque-join-payload")
 			if !bytes.Equal(buf2, snap2) {
 				s.Fail(cases.GoFail{Key: "caller-memory-modified:decrypt-join-accept:" + hx(snap2), What: "DecryptJoinAcceptPayload wrote into the buffer that holds the ciphertext",
